@@ -79,7 +79,7 @@ func (u *Unit) loopContext(n ast.Node) []string {
 		switch l := anc.(type) {
 		case *ast.RangeStmt:
 			if l.Body.Pos() <= n.Pos() && n.End() <= l.Body.End() {
-				out = append(out, "range "+u.argShape(l.X, l, 1))
+				out = append(out, "range "+u.rangeOperandShape(l, true))
 			}
 		case *ast.ForStmt:
 			if l.Body.Pos() <= n.Pos() && n.End() <= l.Body.End() {
@@ -270,4 +270,24 @@ func (r *Run) CheckFrame(rule, name string, scope Scope, min int) {
 	}
 	r.Analysed[rule+" operations"] = nops
 	r.RequireCount(rule, "functions with transcript/sponge operations", len(keys), min)
+}
+
+// rangeOperandShape: `for i := range xs` (index only, over a slice/array) is the same loop as
+// `for i := 0; i < len(xs); i++`; both are rendered as len(xs).
+func (u *Unit) rangeOperandShape(l *ast.RangeStmt, deep bool) string {
+	sh := ""
+	if deep {
+		sh = u.argShape(l.X, l, 1)
+	} else {
+		sh = u.shapeOf(l.X)
+	}
+	if l.Value == nil {
+		if t := u.Info.TypeOf(l.X); t != nil {
+			switch t.Underlying().(type) {
+			case *types.Slice, *types.Array:
+				return "len(" + sh + ")"
+			}
+		}
+	}
+	return sh
 }
